@@ -112,6 +112,8 @@ func (m *C01) evalScript(rq *mRequest) (oracletypes.ResolveStatus, []byte) {
 	switch int(rq.Msg.OracleScriptID) {
 	case scriptSimple:
 		return oracletypes.RESOLVE_STATUS_SUCCESS, []byte("test")
+	case scriptEmpty:
+		return oracletypes.RESOLVE_STATUS_SUCCESS, []byte{}
 	case scriptEcho:
 		var in testdata.Wasm4Input
 		obi.MustDecode(rq.Msg.Calldata, &in)
